@@ -80,6 +80,22 @@ Proof.
 Qed.
 Print Assumptions C10_undisciplined_refuted.
 
+(* Outside the statement of C10, recorded because the model exposes it: ready() retains the
+   taskpool AFTER its CAS NOT_READY -> BUSY.  A disciplined run in which another thread gives
+   the last reference back inside that window runs the whole termination (callback, TERMINATED,
+   OBJ_RELEASE) first; with an initial reference count of 1 the count reaches 0 and obj_release
+   is called while thread 0 is still inside ready(), about to retain and read the taskpool.
+   Replayed on the real module (corpus / directed case of checks/C10.py: final "dead=1"). *)
+Theorem C10_refcount_release_before_retain_witness : exists prog sched,
+  wf_prog prog = true /\
+  let c := run (init 1 prog) sched in
+  dead (shd c) = 1 /\ rc (shd c) = 0 /\ map pc (thrs c) = [R2; Idle].
+Proof.
+  exists [[OAddP 1; OGive false; OReady]; [OTake false; OAddP (-1)]], [0;0;0;0;0;1;1;1;1;1;1;1]%nat.
+  vm_compute. repeat split.
+Qed.
+Print Assumptions C10_refcount_release_before_retain_witness.
+
 (* non-vacuity: a DTD-like disciplined program (set 0/0, one open pending-action reference,
    two tasks inserted and handed to two workers, ready, reference given back) under an
    interleaving schedule; nb_tasks crosses zero twice; everything finishes, the callback ran once *)
